@@ -10,7 +10,8 @@ from rules.c10 import fold
 from rules.c03 import sites, closure_ret
 from rules.c16 import family_signature
 from rules import c19
-from mirq.paths import Paths, Unsupported
+from mirq.paths import Paths, Unsupported, CONTINUES, ptr_root, show_fact
+from mirq.origin import subst
 
 PRIM = "embedded_graphics::primitives::"
 P = lambda i, n: ("param", i, n)
@@ -43,6 +44,25 @@ def pred_tree(prog, f):
     return None
 
 
+def search_acceptance(prog, f):
+    """The ways an iterator's next() hands out an item of an inner search (loops / find / rfind walked once):
+    [(item, facts, returned value)] for the summaries that return Some(..) without going on to a further item.
+    item = the payload of the inner next()/next_back() the facts talk about (None if there is none)."""
+    key = "_c05_paths_once"
+    if not hasattr(prog, key):
+        setattr(prog, key, Paths(prog, loops="once"))
+    summs = getattr(prog, key).of(f)
+    out = []
+    for sm in summs:
+        if sm.ret is None or sm.ret[0] != "agg" or not str(sm.ret[1]).endswith("Option::Some"):
+            continue
+        if any(n == CONTINUES for x in [sm.ret] + [y for fct in sm.facts for y in fct[1:] if isinstance(y, tuple)] for n in walk(x)):
+            continue
+        items = [fct[1] for fct in sm.facts if fct[0] == "variant" and fct[2] == ("Some",) and fct[1][0] == "call" and fct[1][1].split("::")[-1] in ("next", "next_back")]
+        out.append((("payload", items[-1]) if items else None, list(sm.facts), sm.ret[2][0]))
+    return out
+
+
 def is_doubled(t, pt):
     return match(t, ("call", "*Mul<i32>>::mul", "_", (pt, ("const", 2)))) is not None
 
@@ -70,11 +90,15 @@ def circle(prog, rep):
     fidx = {f["name"]: i for i, f in enumerate(prog.adts[SL]["variants"][0]["fields"])}
     init = strip_refs(Origins(nw).return_origin())
     ps = None
-    for c in prog.closures_of.get(nx.id, []):
-        pt_ = pred_tree(prog, c)
-        r = dist_predicate(pt_) if pt_ is not None else None
-        if r is not None:
-            ps = (c, r)
+    try:
+        for item, facts, val in search_acceptance(prog, nx):
+            for fct in facts:
+                if fct[0] in ("lt", "le"):
+                    r = dist_predicate(("bin", "Lt" if fct[0] == "lt" else "Le", fct[1], fct[2]))
+                    if r is not None:
+                        ps = (nx, r)
+    except Unsupported:
+        pass
     ok = pc is not None and ps is not None and init[0] == "agg"
     why = "distance predicate not found on one side"
     if ok:
@@ -88,10 +112,8 @@ def circle(prog, rep):
         cen2 = b2 if pt2 is a2 else a2
         good2 = match(pt2, ("call", "*Mul<i32>>::mul", "_", (("call", "*Point::new", "_", ("_", "_")), ("const", 2)))) is not None
         def self_field(t, fname):
-            # the iterator's own field: captured as `self.<f>` (an upvar named after it) or read through captured `self`
-            if t[0] == "upvar":
-                return fname in (t[2] or "")
-            return t[0] == "field" and t[2] == fidx[fname] and t[1][0] in ("upvar", "param") and "self" in (t[1][2] or "")
+            # the iterator's own field
+            return t[0] == "field" and t[2] == fidx[fname] and t[1][0] == "param" and t[1][1] == 1
         good2 = good2 and self_field(cen2, "center_2x") and self_field(th2, "threshold")
         i_c, i_t = init[2][fidx["center_2x"]], init[2][fidx["threshold"]]
         good3 = match(i_c, ("call", "*Circle::center_2x", "_", (P(1, "circle"),))) is not None and match(i_t, ("call", "*Circle::threshold", "_", (P(1, "circle"),))) is not None
@@ -124,15 +146,23 @@ def ellipse(prog, rep):
     nx = prog.method1(SL, "next", "core::iter::traits::iterator::Iterator")
     n = 0
     good = True
-    for c in prog.closures_of.get(nx.id, []):
-        r = strip_refs(Origins(c).return_origin())
-        for nn, mm in find(r, ("call", "*EllipseContains::contains", "_", ("?ec", "?pt"))):
+    selff = lambda nm: ("field", P(1, "self"), fidx[nm])
+    try:
+        acc = search_acceptance(prog, nx)
+    except Unsupported:
+        acc = []
+    for item, facts, val in acc:
+        tests = [fct[1] for fct in facts if fct[0] == "true" and fct[1][0] == "call" and fct[1][1].endswith("EllipseContains::contains")]
+        for t in tests:
             n += 1
-            good = good and "ellipse_contains" in show(mm["?ec"])
-            vec = match(mm["?pt"], ("call", "*Sub>::sub", "_", (("call", "*Mul<i32>>::mul", "_", (("call", "*Point::new", "_", ("_", "_")), ("const", 2))), "?c"))) is not None
-            comp = match(fold(mm["?pt"]), ("call", "*Point::new", "_", (("bin", "Sub", ("bin", "Mul", "_", ("const", 2)), "?cx"), "?sy"))) is not None
-            good = good and (vec or comp) and "center_2x" in show(mm["?pt"])
-    rep.check(good and n >= 1, "R05.1", "ellipse:scanlines-predicate", "the row search must test ellipse_contains.contains(2*(x, y) - center_2x) (%d predicate closures found)" % n, at=nx.span, fn=nx.path)
+            ec, pt = t[3]
+            good = good and ec == selff("ellipse_contains")
+            vec = match(pt, ("call", "*Sub>::sub", "_", (("call", "*Mul<i32>>::mul", "_", (("call", "*Point::new", "_", ("_", "_")), ("const", 2))), selff("center_2x")))) is not None
+            comp = match(fold(pt), ("call", "*Point::new", "_", (("bin", "Sub", ("bin", "Mul", "_", ("const", 2)), ("field", selff("center_2x"), 0)), "?sy"))) is not None
+            good = good and (vec or comp)
+        if not tests:
+            good = False
+    rep.check(good and n >= 1, "R05.1", "ellipse:scanlines-predicate", "the row search must accept a column exactly on ellipse_contains.contains(2*(x, y) - center_2x) (%d accepting path(s) found)" % n, at=nx.span, fn=nx.path)
 
 
 def sector(prog, rep):
@@ -172,31 +202,43 @@ def sector(prog, rep):
     rep.check(ok, "R05.1", "sector:points-init", "Sector::points must scan the distances of the whole circle sector.to_circle() (every candidate point of the bounding box) with that circle's threshold and PlaneSector::new(angle_start, angle_sweep); found %s" % show(init, maxd=4),
               at=nw.span, fn=nw.path)
     nx = prog.method1(PT, "next", "core::iter::traits::iterator::Iterator")
-    preds = []
-    for c in prog.closures_of.get(nx.id, []):
-        for lits, ret, path in decisions(c):
-            r = strip_refs(ret)
-            conds = [(strip_refs(d), lit_truth(l)) for d, l in lits]
-            preds.append((conds, r, c))
-    # accept exactly: distance < threshold (true) then plane_sector.contains(delta)
+    selfp = lambda nm: ("field", P(1, "self"), fidx[nm])
     good = False
-    for conds, r, c in preds:
-        lt = [d for d, tv in conds if d[0] == "bin" and d[1] == "Lt" and tv is True]
-        if lt and r[0] == "call" and r[1].endswith("PlaneSector::contains"):
-            d = lt[0]
-            good = ("threshold" in show(d[3])) and d[2][0] == "field" and d[2][2] == 2 and r[3][1][0] == "field" and r[3][1][2] == 1 and "plane_sector" in show(r[3][0])
-    rep.check(good, "R05.1", "sector:points-predicate", "the point search must accept (point, delta, distance) iff distance < threshold && plane_sector.contains(delta)", at=nx.span, fn=nx.path)
+    n_acc = 0
+    try:
+        acc = search_acceptance(prog, nx)
+    except Unsupported:
+        acc = []
+    for item, facts, val in acc:
+        n_acc += 1
+        if item is None or ptr_root(item[1])[:2] != ("param", 1) or not any(n == selfp("iter") for n in walk(item[1])):
+            good = False
+            break
+        rest = [fct for fct in facts if not (fct[0] == "variant" and fct[1] == item[1])]
+        want = [("lt", ("field", item, 2), selfp("threshold")), ("true", ("call", "embedded_graphics::primitives::common::plane_sector::PlaneSector::contains", (), (selfp("plane_sector"), ("field", item, 1))))]
+        good = sorted(map(repr, rest)) == sorted(map(repr, want)) and val == ("field", item, 0)
+        if not good:
+            break
+    rep.check(good and n_acc >= 1, "R05.1", "sector:points-predicate", "the point search must accept (point, delta, distance) iff distance < threshold && plane_sector.contains(delta), and yield that point", at=nx.span, fn=nx.path)
     # the iterator yields delta = 2p - center_2x and distance = |delta|^2
     DI = PRIM + "common::distance_iterator::DistanceIterator"
     dn = prog.method1(DI, "next", "core::iter::traits::iterator::Iterator")
+    dfidx = {f["name"]: i for i, f in enumerate(prog.adts[DI]["variants"][0]["fields"])}
     ok = False
-    for c in prog.closures_of.get(dn.id, []):
-        r = strip_refs(Origins(c).return_origin())
-        m = match(r, ("agg", "tuple", ("?p", "?delta", "?dist")))
-        if m is not None:
-            ok = match(m["?delta"], ("call", "*Sub>::sub", "_", (("call", "*Mul<i32>>::mul", "_", (m["?p"], ("const", 2))), "?c"))) is not None and "center_2x" in show(m["?delta"]) \
+    try:
+        summs = Paths(prog).of(dn)
+        some = [sm for sm in summs if sm.ret[0] == "agg" and str(sm.ret[1]).endswith("Option::Some")]
+        none = [sm for sm in summs if sm not in some]
+        ok = len(some) >= 1 and all(sm.ret == ("agg", "core::option::Option::None", ()) for sm in none)
+        for sm in some:
+            m = match(sm.ret[2][0], ("agg", "tuple", ("?p", "?delta", "?dist")))
+            c2x = ("field", P(1, "self"), dfidx["center_2x"])
+            ok = ok and m is not None and m["?p"][0] == "payload" and m["?p"][1][0] == "call" and m["?p"][1][1].endswith("::next") \
+                and match(m["?delta"], ("call", "*Sub>::sub", "_", (("call", "*Mul<i32>>::mul", "_", (m["?p"], ("const", 2))), c2x))) is not None \
                 and match(m["?dist"], ("cast", ("call", "*::length_squared", "_", (m["?delta"],)), "u32")) is not None
-    rep.check(ok, "R05.1", "distance-iterator", "DistanceIterator must yield (p, 2p - center_2x, |2p - center_2x|^2)", at=dn.span, fn=dn.path)
+    except Unsupported:
+        ok = False
+    rep.check(ok, "R05.1", "distance-iterator", "DistanceIterator must yield (p, 2p - center_2x, |2p - center_2x|^2) for every point p of its inner iterator", at=dn.span, fn=dn.path)
     # two copies of one formula
     a = prog.method1(S, "center_2x", None)
     b = prog.method1(C, "center_2x", None)
@@ -214,101 +256,101 @@ def rounded(prog, rep):
     selff = lambda n: ("field", P(1, "self"), fidx[n])
     py = ("field", P(2, "point"), 1)
     table = {}
-    true_paths = []
     probs = []
 
-    def row_lits(lits):
-        out = set()
-        for d, lit in lits:
-            d = fold(strip_refs(d))
-            tv = lit_truth(lit)
-            for side in ("straight_rows_left", "straight_rows_right"):
-                for bound in (0, 1):
-                    for op in ("Lt", "Ge"):
-                        if match(d, ("bin", op, py, ("field", selff(side), bound))) is not None and tv is not None:
-                            # normalise to the positive comparison
-                            if tv:
-                                out.add((side, bound, op))
-                            else:
-                                out.add((side, bound, {"Lt": "Ge", "Ge": "Lt"}[op]))
-        return out
-    for lits, ret, path in decisions(co):
-        r = strip_refs(ret)
-        rl = row_lits(lits)
-        m = match(r, ("call", "*::contains", "_", (("field", P(1, "self"), "?q"), P(2, "point"))))
-        if m is not None and "EllipseQuadrant" in r[1]:
-            q = names.get(m["?q"])
+    def guard_fact(base, w, y):
+        side, bound, op = w
+        B = ("field", ("field", base, fidx[side]), bound)
+        return ("lt", y, B) if op == "Lt" else ("le", B, y)
+
+    def neg(f):
+        return ("le", f[2], f[1]) if f[0] == "lt" else ("lt", f[2], f[1])
+
+    def nocast(facts):
+        return [tuple(fold(x) if isinstance(x, tuple) and x and isinstance(x[0], str) and x[0] not in ("not", "any") else x for x in fct) for fct in facts]
+    me = P(1, "self")
+    px = ("field", P(2, "point"), 0)
+    n_true = 0
+    try:
+        summs = Paths(prog).of(co)
+    except Unsupported as e:
+        summs = []
+        probs.append("cannot summarise contains(): %s" % e)
+    for sm in summs:
+        r = sm.ret
+        fs = nocast(sm.facts)
+        if r[0] == "call" and "EllipseQuadrant" in r[1] and r[1].endswith("::contains") and len(r[3]) == 2 and r[3][1] == P(2, "point") and r[3][0][0] == "field" and r[3][0][1] == me:
+            q = names.get(r[3][0][2])
             w = want.get(q)
-            if w is None or w not in rl:
-                probs.append("quadrant %s is consulted without its row guard %s (guards on the path: %s)" % (q, w, sorted(rl)))
-            table[q] = w if w in rl else None
+            has = w is not None and guard_fact(me, w, py) in fs
+            if not has:
+                probs.append("quadrant %s is consulted without its row guard %s (conditions on the path: %s)" % (q, w, "; ".join(show_fact(x) for x in sm.facts)))
+            table[q] = w if has else None
         elif r == ("const", True):
-            true_paths.append((rl, lits))
+            n_true += 1
+            # accepted without asking a quadrant: the point must lie outside each quadrant's region — its row guard
+            # is false on the path, or its column test is
+            for q, w in want.items():
+                qf = ("field", me, fidx[q])
+                row_excl = neg(guard_fact(me, w, py)) in fs
+                if q.endswith("left"):
+                    col_excl = any(fct[0] == "le" and fct[2] == px and any(n == qf for n in walk(fct[1])) for fct in fs)
+                else:
+                    col_excl = any(fct[0] == "lt" and fct[1] == px and any(n == qf for n in walk(fct[2])) for fct in fs)
+                if not row_excl and not col_excl:
+                    probs.append("an accepting path does not exclude the %s corner region first (a shortcut that accepts a point by a row test alone bypasses the corner curves): %s" % (q, "; ".join(show_fact(x) for x in sm.facts)))
+                    break
         elif r == ("const", False):
             pass
         else:
             probs.append("unrecognised result %s" % show(r, maxd=4))
     if set(table) != set(want):
         probs.append("quadrants consulted: %s" % sorted(table))
-    # every path that accepts without asking a quadrant must lie outside each quadrant's region: for every
-    # quadrant either its row guard is false on the path or a test mentioning that quadrant (its columns) is false
-    n_bad = 0
-    for rl, lits in true_paths:
-        for q, (side, bound, op) in want.items():
-            neg = (side, bound, {"Lt": "Ge", "Ge": "Lt"}[op])
-            col_excl = any(lit_truth(l) is False and any(n == ("field", P(1, "self"), fidx[q]) for n in walk(strip_refs(d))) for d, l in lits)
-            if neg not in rl and not col_excl:
-                n_bad += 1
-                break
-    if n_bad:
-        probs.append("%d accepting path(s) do not exclude every corner region first (a shortcut that accepts a point by a row test alone bypasses the corner curves)" % n_bad)
-    if not true_paths:
+    if not n_true:
         probs.append("no accepting fall-through found")
     rep.check(not probs, "R05.2", "rounded:contains-table", "; ".join(probs[:3]), at=co.span, fn=co.path, detail={k: str(v) for k, v in table.items()})
-    # points side
+    # points side: each row search consults the quadrant of its side under the same row guard, first column (find)
+    # on the left, last column (rfind) on the right
     SL = PRIM + "rounded_rectangle::points::Scanlines"
     nx = prog.method1(SL, "next", "core::iter::traits::iterator::Iterator")
-    org = Origins(nx)
+    rr = ("field", me, field_index(prog, SL, "rounded_rectangle"))
     got = {}
-    for c in prog.closures_of.get(nx.id, []):
-        r = strip_refs(Origins(c).return_origin())
-        m = match(r, ("call", "*::contains", "_", ("?q", ("call", "*Point::new", "_", ("_", "_")))))
-        if m is None or "EllipseQuadrant" not in r[1]:
-            continue
-        qs = show(m["?q"])
-        q = next((k for k in want if k in qs.replace("self__rounded_rectangle__", "")), None)
-        # where is the closure created, and under which guards, and passed to find or rfind
-        for bi in sorted(org.cfg.live_blocks()):
-            for si, s in enumerate(nx.body["blocks"][bi]["s"]):
-                if s["k"] == "assign" and s["rv"]["k"] == "agg" and s["rv"].get("closure") == c.id:
-                    gs = [(fold(strip_refs(d)), lit_truth(l)) for d, l in dominating_guards(nx, org, bi)]
-                    rows = set()
-                    rr = field_index(prog, SL, "rounded_rectangle")
-                    for d, tv in gs:
-                        for side in ("straight_rows_left", "straight_rows_right"):
-                            for bound in (0, 1):
-                                for op in ("Lt", "Ge"):
-                                    bnd = ("field", ("field", ("field", P(1, "self"), rr), fidx[side]), bound)
-                                    if match(d, ("bin", op, "_", bnd)) is not None and tv is True:
-                                        rows.add((side, bound, op))
-                    # consumer
-                    cons = None
-                    for bj in sorted(org.cfg.live_blocks()):
-                        t = nx.body["blocks"][bj]["t"]
-                        if t and t["k"] == "call" and t["f"].get("name") in ("find", "rfind"):
-                            for a in org.term_args(bj):
-                                if any(n[0] == "agg" and n[1] == "closure:" + c.id for n in walk(a)):
-                                    cons = t["f"]["name"]
-                    got[q] = (rows, cons)
     probs = []
+    try:
+        if not hasattr(prog, "_c05_paths_once"):
+            prog._c05_paths_once = Paths(prog, loops="once")
+        summs = prog._c05_paths_once.of(nx)
+    except Unsupported as e:
+        summs = []
+        probs.append("cannot summarise the row search: %s" % e)
+    for sm in summs:
+        fs = nocast(sm.facts)
+        for fct in fs:
+            if fct[0] in ("true", "false") and fct[1][0] == "call" and "EllipseQuadrant" in fct[1][1] and fct[1][1].endswith("::contains") and len(fct[1][3]) == 2:
+                qt, pt = fct[1][3]
+                if not (qt[0] == "field" and qt[1] == rr):
+                    probs.append("a row search consults %s" % show(qt, maxd=3))
+                    continue
+                q = names.get(qt[2])
+                m = match(pt, ("call", "*Point::new", "_", ("?x", "?y")))
+                if m is None or q not in want:
+                    probs.append("unrecognised quadrant test %s" % show(fct[1], maxd=4))
+                    continue
+                x, y = m["?x"], m["?y"]
+                cons = x[1][1].split("::")[-1] if x[0] == "payload" and x[1][0] == "call" else None
+                rows_ok = guard_fact(rr, want[q], y) in fs
+                y_ok = y[0] == "payload" and y[1][0] == "call" and y[1][1].split("::")[-1] == "next" and any(n == ("field", rr, fidx["rows"]) for n in walk(y[1]))
+                prev = got.get(q)
+                cur = (rows_ok and y_ok, {"next": "find", "next_back": "rfind"}.get(cons))
+                got[q] = cur if prev is None or prev == cur else (False, "inconsistent")
     for q, w in want.items():
         g = got.get(q)
         if g is None:
             probs.append("no row search consults %s" % q)
             continue
-        rows, cons = g
-        if w not in rows:
-            probs.append("%s searched under guards %s, contains() uses %s" % (q, sorted(rows), w))
+        rows_ok, cons = g
+        if not rows_ok:
+            probs.append("%s is searched without the row guard contains() uses (%s) on the row taken from self.rounded_rectangle.rows" % (q, w))
         wc = "find" if q.endswith("left") else "rfind"
         if cons != wc:
             probs.append("%s must be searched with %s (first/last contained column), found %s" % (q, wc, cons))
